@@ -20,3 +20,7 @@ package models
 //@   trusted
 //@   modifies nothing
 //@   ensures fresh(result)
+//@ func NewLazyIdentity
+//@   trusted
+//@   modifies nothing
+//@   ensures fresh(result)
